@@ -632,6 +632,11 @@ void bloom_filter_alloc<A>::internal_update(uint64_t h0, uint64_t h1) {
     bit_array_ops::set_bit(bit_array_, hash_index);
   }
   is_dirty_ = true;
+  if (memory_ != nullptr) {
+    // the count stored in the wrapped memory is stale now: mark it so that other views of the memory recount
+    const uint64_t dirty_bits_value = DIRTY_BITS_VALUE;
+    copy_to_mem(dirty_bits_value, memory_ + NUM_BITS_SET_OFFSET_BYTES);
+  }
 }
 
 // QUERY-AND-UPDATE METHODS
